@@ -670,6 +670,13 @@ class Exec:
             sorts = shape_sorts(sh)
             arrs = [z3.K(z3.IntSort(), z3.BoolVal(True))] + [z3.K(z3.IntSort(), default_of(s)) for s in sorts[1:]]
             return SeqV(sh, arrs, v.n)
+        if isinstance(v, DefaultDictEmpty):
+            typ = self.fctx.locals.get(name)
+            if not isinstance(typ, T.MAP):
+                raise Unsupported(f"defaultdict bound to {name}: declare its type MAP(..) in the contract")
+            r = empty_map(typ.key.shape(), typ.val.shape(), typ.ordered)
+            r.default = v.default
+            return r
         if isinstance(v, (EmptySeq, EmptySet, EmptyDict)):
             typ = self.fctx.locals.get(name)
             if typ is None:
@@ -714,6 +721,8 @@ class Exec:
             e.vars[nm] = self.havoc_like(cur, f"{nm}.{lid}")
             if getattr(cur, "owner", None) is not None:
                 e.vars[nm].owner = cur.owner
+            if getattr(cur, "default", None) is not None:
+                e.vars[nm].default = cur.default
         # heap: the fields the loop body may modify -- those it stores syntactically plus those that
         # the contracts of the functions it calls declare (statically, `modifies=` at registration);
         # a callee under contract without a static declaration may modify anything the enclosing
@@ -1457,10 +1466,7 @@ class Exec:
 
     def load_index(self, base, idx, node=None):
         if is_z3(base) and base.sort() == V.Val:
-            i = to_num(idx)
-            if not isinstance(i, z3.IntNumRef):
-                raise Unsupported("symbolic index into an opaque value")
-            return self.prop.theory.item(base, i)
+            return self.prop.theory.item(base, to_num(idx))
         if isinstance(base, Tup):
             if isinstance(idx, tuple) and idx[0] == "slice":
                 lo = idx[1].as_long() if idx[1] is not None else None
@@ -1491,6 +1497,12 @@ class Exec:
             return base.get(i)
         if isinstance(base, MapV):
             k = coerce_key(self, idx, key_sort(base.kshape))
+            if getattr(base, "default", None) is not None:
+                # collections.defaultdict: a missing key reads as the default value (the entry it
+                # creates is added by the store that follows in `d[k] += v`)
+                vals = base.val if isinstance(base.val, (list, tuple)) else [base.val]
+                dflt = flatten(base.vshape, base.default)
+                return unflatten(base.vshape, [z3.If(z3.Select(base.dom, k), z3.Select(a, k), d) for a, d in zip(vals, dflt)])
             if self.in_comprehension:
                 # inside a comprehension body a path split is not possible: the lookup must
                 # succeed for every value of the bound variable (else KeyError would propagate)
@@ -1537,7 +1549,10 @@ class Exec:
             isnew = z3.Not(z3.Select(m.dom, k))
             (ka,) = arrs_of(keys)
             keys = SeqV(keys.shape, z3.If(isnew, z3.Store(ka, keys.n, k), ka), z3.If(isnew, keys.n + 1, keys.n))
-        return MapV(m.kshape, m.vshape, z3.Store(m.dom, k, z3.BoolVal(True)), nv if len(nv) > 1 else nv[0], keys)
+        r = MapV(m.kshape, m.vshape, z3.Store(m.dom, k, z3.BoolVal(True)), nv if len(nv) > 1 else nv[0], keys)
+        if getattr(m, "default", None) is not None:
+            r.default = m.default
+        return r
 
     # ---- sequences -------------------------------------------------------------------
     def as_seq(self, v, node=None):
@@ -1766,6 +1781,13 @@ def _has_quantifier(f):
     return False
 
 
+class DefaultDictEmpty:
+    """defaultdict(float) / defaultdict(int) before its declared type is known."""
+
+    def __init__(self, default):
+        self.default = default
+
+
 class ExcV:
     """A caught exception object (only its class name is modelled)."""
 
@@ -1819,4 +1841,9 @@ def coerce_key(ex, x, sort):
         if sort != Ref:
             raise Unsupported("object used as key of a non-reference container")
         return x.ref
+    if isinstance(x, SeqV) and sort == V.Val and x.shape == V.Val:
+        # a tuple of opaque values used as a key: an opaque value that is a function of its items
+        # (Theory.val_tuple: equal items give equal tuples)
+        x = ex.materialize(x)
+        return ex.prop.theory.val_tuple(arrs_of(x)[0], x.n)
     return coerce(x, sort)
